@@ -5,10 +5,11 @@ from harness.core import tb
 from harness.gen import systems
 from harness.props import _shared, c03
 
-PROOF_MODULE = ["OdeVerif.Proofs.C02", "OdeVerif.Proofs.C03"]
+PROOF_MODULE = ["OdeVerif.Proofs.C02", "OdeVerif.Proofs.C03", "OdeVerif.Proofs.C04b"]
 THEOREMS = ["OdeVerif.C02.classify_complete_lin", "OdeVerif.C02.classify_complete_const", "OdeVerif.C02.canonical_linear_no_nonlin",
             "OdeVerif.C02.parameterSymbols_spec", "OdeVerif.C02.analytic_sound_coeffs",
-            "OdeVerif.C03.tractable_recognised", "OdeVerif.C03.propagate_greatest", "OdeVerif.C03.verdict_perm_invariant"]
+            "OdeVerif.C03.tractable_recognised", "OdeVerif.C03.propagate_greatest", "OdeVerif.C03.verdict_perm_invariant",
+            "OdeVerif.C04b.expandRaw_sound", "OdeVerif.C04b.coeffOf_eq", "OdeVerif.C04b.linearCC_iff", "OdeVerif.C04b.spelling_invariant", "OdeVerif.C04b.den_ring_rules", "OdeVerif.C04b.den_sympow_add"]
 LEVEL = "proof"
 STYLES = ["expanded", "factored", "nested", "floats", "shuffled", "expanded"]
 
@@ -75,6 +76,7 @@ def run(ctx, driver):
             ctx.fail("verdict-depends-on-spelling", ex["indict"], {"distinct_analytic_sets": [list(s) for s in sets], "signature": {"site": "spelling"}})
     ctx.sample({"truth": cases[-1]["truth_id"], "spellings": [c["indict"]["dynamics"][0]["expression"] for c in cases if c["truth_id"] == cases[-1]["truth_id"]][:6]})
     _shared.corr_split(ctx, driver, cases, results)
+    _shared.corr_poly(ctx, driver, cases, results)
     c03.check_graph_correspondence(ctx, driver, cases, results)
     ctx.assumptions += [
         "independence of the spelling rests on the contract that sympy's expand() yields a sum of monomial terms with like terms combined (validated on every case by the split correspondence and by the independent differential criterion); the Lean theorems start from that expanded form",
